@@ -192,6 +192,14 @@ class SocketModule(object):
         self.created = []
         self.default_timeout = None     # process-wide default of new sockets (socket.setdefaulttimeout)
 
+    def __getattr__(self, name):
+        # constants and exception classes of the real module (SHUT_RDWR, MSG_PEEK, timeout ...); functions are not modelled
+        import socket as _s
+        v = getattr(_s, name)
+        if callable(v) and not isinstance(v, type):
+            raise AttributeError('socket.%s is not modelled by the transport stand-in' % name)
+        return v
+
     def setdefaulttimeout(self, t):
         self.default_timeout = t
 
